@@ -343,25 +343,33 @@ func ruleIndexArms(r *Report) {
 		cbs := b.Loop.May(opPut, "callback")
 		guard := false
 		if len(cbs) > 0 && len(sets) > 0 && len(clears) > 0 {
+			// decided semantically: with the operation fixed to Put (every test of Reader.Type and the
+			// reader's own predicates evaluated accordingly) and the predicate's result forced to
+			// true, no clearing block is reachable and every setting block is; forced to false, the
+			// other way round
 			cb := cbs[0].Ins.(*ssa.Call)
-			for _, blk := range b.Fn.Blocks {
-				iff, ok := blk.Instrs[len(blk.Instrs)-1].(*ssa.If)
-				if !ok || strip(iff.Cond) != ssa.Value(cb) {
-					continue
-				}
-				t, f := blk.Succs[0], blk.Succs[1]
-				setOnTrue, clearOnFalse := true, true
-				for _, e := range sets {
-					if !(t.Dominates(e.Ins.Block()) && len(t.Preds) == 1) {
-						setOnTrue = false
+			under := func(pred bool) map[*ssa.BasicBlock]bool {
+				return reachableUnder(b.Fn, func(v ssa.Value) (bool, bool) {
+					if v == ssa.Value(cb) {
+						return pred, true
 					}
-				}
-				for _, e := range clears {
-					if !(f.Dominates(e.Ins.Block()) && len(f.Preds) == 1) {
-						clearOnFalse = false
+					if k, eq, ok := typeTest(v); ok {
+						return (k == opPut) == eq, true
 					}
+					return false, false
+				})
+			}
+			rt, rf := under(true), under(false)
+			guard = true
+			for _, e := range sets {
+				if !rt[e.Ins.Block()] || rf[e.Ins.Block()] {
+					guard = false
 				}
-				guard = setOnTrue && clearOnFalse
+			}
+			for _, e := range clears {
+				if !rf[e.Ins.Block()] || rt[e.Ins.Block()] {
+					guard = false
+				}
 			}
 		}
 		h.Check(guard, b.Name+"/Put/guard", effPos(r.P, sets), "set ⇐ predicate true, clear ⇐ predicate false", "the bit is not set exactly on the true edge and cleared on the false edge of the predicate's result")
@@ -481,18 +489,35 @@ func ruleKeyArms(r *Report) {
 			sets := b.Loop.May(opPut, "presence-set")
 			guardOK := true
 			for _, d := range dels {
-				g := edgeGuarded(d.Ins.Block(), func(c ssa.Value) (bool, bool) {
+				// the removal may sit in a helper: the guard is then looked for around the inner
+				// instruction, its row argument read through the helper's parameter binding, and
+				// "before the bit is set" refers to the helper's call in the loop body
+				blk := d.Ins.Block()
+				if d.Inner != nil {
+					blk = d.Inner.Block()
+				}
+				g := edgeGuarded(blk, func(c ssa.Value) (bool, bool) {
 					call, isC := c.(*ssa.Call)
 					if !isC || !methodOn(&call.Call, "github.com/kelindar/bitmap", "Bitmap", "Contains") {
 						return false, false
 					}
-					if len(sets) == 0 || sets[0].Offset == nil || !sameExpr(call.Call.Args[1], sets[0].Offset) {
+					row := call.Call.Args[1]
+					at := ssa.Instruction(call)
+					if d.Inner != nil {
+						at = d.Ins
+						if d.Bind != nil {
+							if v := d.Bind(strip(row)); v != nil {
+								row = v
+							}
+						}
+					}
+					if len(sets) == 0 || sets[0].Offset == nil || !sameExpr(row, sets[0].Offset) {
 						return false, false
 					}
 					// evaluated before the bit is set
 					for _, s := range sets {
-						sb, cb := s.Ins.Block(), call.Block()
-						if sb == cb && instrIndex(s.Ins) < instrIndex(call) {
+						sb, cb := s.Ins.Block(), at.Block()
+						if sb == cb && instrIndex(s.Ins) < instrIndex(at) {
 							return false, false
 						}
 						if sb != cb && reachAvoiding(sb, cb, func(x *ssa.BasicBlock) bool { return x == b.Loop.Head }, nil) {
